@@ -4,6 +4,7 @@ Exit 0 iff every accepted original is accepted and every corruption is rejected.
 from __future__ import annotations
 
 import copy
+import os
 import json
 import sys
 
@@ -120,6 +121,18 @@ def main() -> int:
     add = next(e for e in c if e['call'] == 'Database.add' and len(e['post']['tables']) > len(e['pre']['tables']))
     add['outcome'] = 'DatabaseValidationError'                  # a call that changed the container is reported as refused
     expect('TraceContainerInv: a refused call that changed the container', vi(c), True)
+    # --- pv/run.py: what escapes from a check is classified, never left as a bare traceback ----------------------------------
+    import subprocess
+    import tempfile
+    with tempfile.TemporaryDirectory(prefix='pv_selftest_') as td:
+        env = dict(os.environ, VERIF_OUT=td)
+        for mod, want, what in (('_escape_repo', 1, 'exception from the package under test -> VIOLATION, exit 1'),
+                                ('_escape_harness', 2, 'exception from the machinery -> exit 2')):
+            p = subprocess.run([sys.executable, '-B', '-m', 'pv.run', mod], cwd=core.VERIF, env=env, stdout=subprocess.PIPE,
+                               stderr=subprocess.PIPE, text=True)
+            good = p.returncode == want and (('VIOLATION property=' in p.stdout) == (want == 1))
+            ok = ok and good
+            print('%-58s %s  (exit %d)' % ('pv/run.py: ' + what, 'ok' if good else 'SELFTEST FAILED', p.returncode))
     print('selftest %s' % ('passed' if ok else 'FAILED'))
     return 0 if ok else 1
 
